@@ -62,6 +62,7 @@ WORKERS = {"quick": 16, "thorough": 16}
 REQUIRE = {"pairs_compared": 120, "pairs_nontrivial": 100, "handler_raises": 300, "scenarios_deterministic": 8,
            "events_raised_distinct": 17, "intervention_cases": 15, "intervention_raises": 15}
 MAX_INCONCLUSIVE_FRAC = 0.05
+CASE_BUDGET_S = 30.0      # only applies once a case has already produced a violation
 
 _LOG = logging.getLogger("pynetdicom.events")
 
@@ -588,11 +589,16 @@ def run_diff_case(case):
                 "violations": [], "counters": counters, "inconclusive": None, "pair_keys": [], "det": [scn["name"], False], "events": []}
     counters["scenario_blocks_deterministic"] = 1
     viol, pair_keys, events, notes = [], [], set(), []
+    t_start = time.time()
     for spec in case["specs"]:
         masks = concrete_masks(spec, side, base["counts"], seed, scn["name"])
         if not masks:
             counters["masks_skipped_event_absent"] += 1
         for label, evkey, m in masks:
+            if viol and time.time() - t_start > CASE_BUDGET_S:
+                # a broken tree makes every pair expensive (confirmation rounds, timeouts): enough has been shown
+                counters["masks_skipped_case_budget"] = counters.get("masks_skipped_case_budget", 0) + 1
+                continue
             v, raised, note = differential(scn, seed, side, label, evkey, m, case["kind"], case["exc"], base, counters)
             for x in v:
                 if not any(y["key"] == x["key"] for y in viol):
